@@ -1,4 +1,5 @@
-"""C08 - maxvol / maxvol_rect return distinct dominant rows and an exact coefficient matrix; rejection contracts; _maxvol dispatch."""
+"""C08 - maxvol / maxvol_rect return distinct dominant rows and an exact coefficient matrix, at every scale of A and of its columns;
+rejection contracts; _maxvol dispatch."""
 import math
 import numpy as np
 import scipy.linalg
@@ -17,29 +18,45 @@ RULE = ("Hypothesis draws tall matrices of full column rank BY CONSTRUCTION: r g
         "rows, a drawn row permutation, and either the raw matrix (families gauss; int = small integers with many ties; lu = L U with "
         "a unit lower trapezoidal L, 0.3/0.9 <= |l_ij| < 1, for which the LU start of maxvol is poor and 1-8 row swaps happen) or "
         "orth(G) diag(10^-linspace(0,c,r)) V^T x 10^s with c in 0..8 (prescribed 2-norm condition number 10^c; the exact zero / "
-        "duplicate rows are re-imposed afterwards). Aspect ratios from n = r+1 (r 1..6, n-r 1..12; thorough r..8, n..40). "
+        "duplicate rows are re-imposed afterwards). SCALES: every matrix is then multiplied columnwise by exact powers of two: an overall "
+        "exponent from 0 / +-10 / +-33 / -40..-67 (pivots around and below 1e-16) / +-100 / +-333 (1e+-100) / +-664 / +-700 / +-900 / "
+        "+-996 (1.5e-300, 6.7e+299) / +-1100 (clipped to the end of the admissible range) plus per-column exponents (none; each column "
+        "in +-60 or +-300; one column 2^-600..2^600 away from the others; graded 2^(step j)), clipped so that every column maximum m_j "
+        "satisfies 2^-997 cond <= m_j < 2^1000, cond = cond2 of the column-normalised matrix. Every case carries a PARTNER scaling "
+        "(overall exponent from +-1 .. +-600, never 0, plus column exponents, inside |exponent| <= 700): the library is called on the "
+        "partner too (for every iteration limit / for the same rect and dispatch arguments). Aspect ratios from n = r+1 (r 1..6, n-r 1..12; thorough r..8, n..40). "
         "maxvol: e in {1.01,1.05,1.1,2} or a float in [1.01,4], a chain of iteration limits k1<k2<..<10^5 on the same matrix "
         "(every limit is one inner evaluation). maxvol_rect: e, e0, k0, 0<=dr_min<=n-r (biased to the extremes), dr_max None / "
         "dr_min.. / beyond n-r. Rejections: square and wide input, dr_min>dr_max, dr_min<0, dr_min>n-r. _maxvol: n<=r, "
-        "dr_max==0, dr values beyond n-r and dr_min>dr_max (clamped). Oracle = validity predicates (never an expected index "
-        "vector) + an independently solved B_ref = A inv(A[I]). Non-trivial = n-r >= 2 and (cond >= 1e4 or zero/duplicate rows "
+        "dr_max==0, dr values beyond n-r and dr_min>dr_max (clamped), n<=r input of any overall scale. Oracle = validity predicates "
+        "(never an expected index vector) evaluated on the exactly column-normalised An = A D^-1 (max|column| in [0.5,1); A = B A[I] "
+        "<=> An = B An[I]) + an independently solved B_ref = An inv(An[I]) + the scaling symmetry: I and B for A D' are bit-for-bit "
+        "those for A. Non-trivial = n-r >= 2 and (cond >= 1e4 or zero/duplicate rows "
         "or dr_min > 0); distinct by SHA-1 of the case (+ iteration limit).")
-TOLERANCES = ("max|A - B A[I]| <= 64 eps q max|A| g, q = len(I), g = max(max|B|, max|L inv(L[:r])| of my own partial-pivoting LU of A) = "
+TOLERANCES = ("COLUMN BY COLUMN max_i|A - B A[I]|_ij <= 64 eps q max_i|A_ij| g (the backward error of the triangular solves is componentwise "
+              "in U, hence relative to each column of A; there is no absolute term anywhere), q = len(I), g = max(max|B|, max|L inv(L[:r])| of my own partial-pivoting LU of A) = "
               "largest coefficient matrix of the run (rounding committed while B was large stays in B after it has shrunk; g <= 2^(r-1)). "
               "The residual of backward-stable triangular solves and of rank-one updates does not grow with cond(A): observed worst "
-              "1.1 eps q max|A| g over 7e4 matrices up to cond 1e8, i.e. 1/60 of the bound. Square variant: max|B[I] - Id| <= 64 eps r "
-              "cond2(A) g (forward error of the LU start, observed worst 0.54 eps r cond g); rect: B[I] == Id bit-for-bit (assigned). "
+              "1.1 eps q max|A| g over 7e4 matrices up to cond 1e8, i.e. 1/60 of the bound, the same (0.92) at the two ends of the scale "
+              "range. Square variant: max|B[I] - Id| <= 64 eps r cond g, cond = cond2 of the column-normalised A (B does not depend on "
+              "the column scaling; equilibration is within sqrt(r) of the best scaling) (forward error of the LU start, observed worst "
+              "0.54 eps r cond g at every scale); scaling symmetry: bit-for-bit (LU with partial pivoting of A D, D = powers of two, has "
+              "the same pivot order, the same L and U D; U^T Q = A^T row-scaled gives the same Q; everything after that is scale-free); rect: B[I] == Id bit-for-bit (assigned). "
               "k = 10^5: returned max|B| <= e exactly (the loop's own stop test) and max|B_ref| <= e(1+1e-9) + 64 eps r cond2(A[I]) "
-              "max(1,max|B_ref|) (forward error of my solve and of the library's B, observed worst 0.83 of eps r cond2(A[I]) max|B|); "
+              "max(1,max|B_ref|) with A[I] column-normalised (forward error of my solve and of the library's B, observed worst 0.83 of eps r cond2(A[I]) max|B|); "
               "log|det A[I(k2)]| >= log|det A[I(k1)]| - 64 r eps (cond2(A[I1]) + cond2(A[I2])) for k1 < k2; rect early stop: row norms "
               "<= e(1+1e-9) + 64 eps q F0, F0 = largest squared row norm of the maxvol start (cancellation in the downdated squared "
               "norms F - l v^2)")
-ASSUMPTIONS = ["A is tall with full column rank (guaranteed by construction: r generic rows are never overwritten), finite, |entries| in "
-               "[1e-11, 1e4] or 0", "cond2(A) <= ~1e8 for the prescribed-spectrum family; for raw Gaussian/integer matrices the "
+ASSUMPTIONS = ["A is tall with full column rank (guaranteed by construction: r generic rows are never overwritten), finite; before scaling |entries| in [1e-11, 1e4] or 0", "scales: 2^-997 cond2(An) <= max|column| < 2^1000 for every column "
+               "(LU pivots stay normal numbers: >= max|column| / (cond r sqrt(nr) growth); U <= 2^(r-1) max|column| does not overflow). "
+               "Measured on the unchanged library: at the lower end max|B - B(unit scale)| = 2e-24 and identical I, still 9e-16 with the "
+               "limit moved to 2^-1020; at the upper end bit-identical up to 2^1016", "the bit-for-bit scaling symmetry is asserted only "
+               "when the column maxima of both matrices lie in [2^-700 cond, 2^700] (a product l u that underflows could otherwise change a "
+               "rounding); 8000 pairs with exponents up to +-900 were bit-identical on the unchanged library", "cond2(A) <= ~1e8 for the prescribed-spectrum family; for raw Gaussian/integer matrices the "
                "tolerances use the actual cond2(A) computed by LAPACK SVD", "e, e0 >= 1.01; k, k0 >= 1; r <= 8 so that 10^5 "
                "iterations cannot be reached (every swap multiplies |det A[I]| by more than e and the LU start is within "
                "(sqrt(r) 2^(r-1))^r of the maximum: < 4800 swaps)", "repeated identical calls are bit-for-bit reproducible "
-               "(single-threaded BLAS), used only by the _maxvol dispatch comparison"]
+               "(single-threaded BLAS), used by the _maxvol dispatch comparison and the scaling symmetry"]
 
 E_SET = [1.01, 1.05, 1.1, 2.0]
 K_BIG = 10 ** 5
@@ -66,7 +83,37 @@ def matrix_specs(draw, tier, min_extra=1):
         spec["c"] = draw(st.sampled_from([0, 0, 2, 4]))
         spec["signs"] = draw(st.sampled_from(["neg", "random", "random", "random"]))
         spec["lo"] = draw(st.sampled_from([0.3, 0.9, 0.9]))
+    spec["scale2"], spec["cols"] = draw(scalings(r, SCALE2))
     return spec
+
+
+# Binary exponents of the overall scale (2^-996 = 1.5e-300, 2^-333 = 1e-100, 2^-67 = 7e-21, 2^-54 = 5.6e-17, 2^-40 = 9e-13; +-1100 is
+# clipped to the end of the range the library can handle) and of the individual columns.  Scaling by powers of two is exact.
+SCALE2 = [0, 0, 0, 0, 0, 0, -10, 10, -33, 33, -40, -47, -50, -54, -57, -60, -67, 67, -100, 100, -333, 333, -664, 664, -700, 700, -900, 900,
+          -996, 996, -1100, 1100]
+SCALE2_PARTNER = [-67, 67, -54, -40, 40, -100, 100, -333, 333, -600, 600, -10, 10, -1, 1]
+LO2, HI2 = -996, 1000          # admissible binary exponent of a column maximum: LO2 + log2(cond) <= . <= HI2
+SAFE2 = 700                    # |binary exponent| of the column maxima up to which scaling is an exact (bit-for-bit) symmetry
+
+
+@st.composite
+def scalings(draw, r, table):
+    """(overall binary exponent, None or r binary exponents of the columns)."""
+    s = draw(st.sampled_from(table))
+    mode = draw(st.sampled_from(["none", "none", "none", "none", "none", "spread", "wide", "one", "one", "graded"]))
+    if mode == "none":
+        cols = None
+    elif mode == "spread":
+        cols = draw(st.lists(st.integers(-60, 60), min_size=r, max_size=r))
+    elif mode == "wide":
+        cols = draw(st.lists(st.integers(-300, 300), min_size=r, max_size=r))
+    elif mode == "one":
+        cols = [0] * r
+        cols[draw(st.integers(0, r - 1))] = draw(st.sampled_from([-40, -54, -70, -200, -600, 40, 70, 200, 600]))
+    else:
+        step = draw(st.sampled_from([-40, -20, -8, 8, 20, 40]))
+        cols = [step * j for j in range(r)]
+    return s, cols
 
 
 def apply_ops(G, r, ops):
@@ -86,7 +133,8 @@ def apply_ops(G, r, ops):
     return G
 
 
-def build(spec):
+def build0(spec):
+    """The matrix at unit scale (entries in [1e-11, 1e4] or 0)."""
     n, r, fam = spec["n"], spec["r"], spec["fam"]
     rng = np.random.default_rng(spec["seed"])
     if fam == "int":
@@ -116,9 +164,55 @@ def build(spec):
     return np.ascontiguousarray(G[np.asarray(spec["perm"], dtype=int)])
 
 
-def matrix_labels(ctx, spec, A, cond):
+def normalise(A):
+    """A 2^-t columnwise with the binary exponents t of the column maxima (max|column| in [0.5, 1)): an exact operation."""
+    t = np.frexp(np.max(np.abs(A), axis=0))[1].astype(int)
+    return np.ldexp(A, -t[None, :]), t
+
+
+def rescale(An, t0, s, cols, lo, hi):
+    """An 2^t columnwise, t = t0 + s + cols clipped to lo <= t <= hi (exact: powers of two; An's entries are 0 or >= 1e-15 of the
+    column maximum, far from under/overflow for the exponents used here)."""
+    t = t0 + int(s) + (np.zeros(len(t0), dtype=int) if cols is None else np.asarray(cols, dtype=int))
+    t = np.clip(t, lo, hi)
+    return np.ascontiguousarray(np.ldexp(An, t[None, :])), t
+
+
+class Mat:
+    """The matrix handed to the library (A), its exactly normalised copy for the oracles (An = A D^-1, D = powers of two),
+    cond = cond2(An), the binary exponents t of the column maxima of A, the size of the LU start."""
+
+    def __init__(self, spec):
+        A0 = build0(spec)
+        self.An, self.t0 = normalise(A0)
+        self.cond = float(np.linalg.cond(self.An))
+        self.lc = int(math.ceil(math.log2(max(self.cond, 1.0))))
+        self.A, self.t = rescale(self.An, self.t0, spec.get("scale2", 0), spec.get("cols"), LO2 + self.lc, HI2)
+        self.safe = bool(np.all(self.t >= -SAFE2 + self.lc) and np.all(self.t <= SAFE2))
+        self.growth = start_growth(self.An)
+
+    def partner(self, s, cols):
+        """The same matrix at another scale inside the range where scaling is an exact symmetry (None if A itself is outside that
+        range or the partner would be A)."""
+        A2, t2 = rescale(self.An, self.t0, s, cols, -SAFE2 + self.lc, SAFE2)
+        if not self.safe or np.array_equal(t2, self.t):
+            return None
+        return A2
+
+
+def build(spec):
+    return Mat(spec).A
+
+
+def matrix_labels(ctx, spec, mat):
+    A, cond = mat.A, mat.cond
     n, r = A.shape
     kinds = {op[0] for op in spec["ops"]}
+    tmin, tmax = int(mat.t.min()), int(mat.t.max())
+    ctx.label("scale:<2^-700" if tmin < -700 else ("scale:<2^-333" if tmin < -333 else ("scale:<2^-53" if tmin < -53 else None)),
+              "scale:>2^700" if tmax > 700 else ("scale:>2^333" if tmax > 333 else ("scale:>2^53" if tmax > 53 else None)),
+              "scale:unit" if -20 <= tmin and tmax <= 20 else None,
+              "columns:spread>=2^40" if tmax - tmin >= 40 else None, "scale:symmetry_range" if mat.safe else "scale:beyond_symmetry_range")
     ctx.label("fam:" + spec["fam"], "n-r==1" if n - r == 1 else "n-r>=2", "r==1" if r == 1 else None)
     if "zero" in kinds:
         ctx.label("zero_rows")
@@ -137,8 +231,10 @@ def start_growth(A):
     return max(1.0, float(np.max(np.abs(B0))))
 
 
-def validate(ctx, what, A, I, B, lo, hi, exact_identity, cond):
-    """Oracles shared by both variants: index vector, shape, B[I] = identity, A = B A[I]."""
+def validate(ctx, what, mat, I, B, lo, hi, exact_identity):
+    """Oracles shared by both variants: index vector, shape, B[I] = identity, A = B A[I].  All of them are evaluated on the exactly
+    normalised matrix An = A D^-1 (A = B A[I] <=> An = B An[I]; B = A inv(A[I]) does not depend on D), column by column."""
+    A, cond = mat.An, mat.cond
     n, r = A.shape
     ctx.check(isinstance(I, np.ndarray) and I.ndim == 1 and I.dtype.kind in "iu", f"{what}: I is not a 1-D integer array",
               type=type(I).__name__, dtype=str(getattr(I, "dtype", None)), shape=getattr(I, "shape", None))
@@ -150,18 +246,36 @@ def validate(ctx, what, A, I, B, lo, hi, exact_identity, cond):
     ctx.check(isinstance(B, np.ndarray) and B.dtype.kind == "f" and B.shape == (n, q), f"{what}: B is not a float array of shape [n, len(I)]",
               shape=getattr(B, "shape", None), expected=(n, q))
     ctx.check(bool(np.all(np.isfinite(B))), f"{what}: B has non-finite entries")
-    mB = max(start_growth(A), float(np.max(np.abs(B))))
-    mA = float(np.max(np.abs(A)))
+    mB = max(mat.growth, float(np.max(np.abs(B))))
+    mA = np.max(np.abs(A), axis=0)                   # in [0.5, 1)
     if exact_identity:
         ctx.check(np.array_equal(B[I], np.eye(q)), f"{what}: B[I] is not exactly the identity", defect=float(np.max(np.abs(B[I] - np.eye(q)))))
     else:
         defect = float(np.max(np.abs(B[I] - np.eye(q))))
         tol = 64 * EPS * r * cond * mB
         ctx.check(defect <= tol, f"{what}: B[I] differs from the identity", defect=defect, tol=tol, cond=cond)
-    res = float(np.max(np.abs(A - B @ A[I])))
+    res = np.max(np.abs(A - B @ A[I]), axis=0)
     tol = 64 * EPS * q * mA * mB
-    ctx.check(res <= tol, f"{what}: A != B A[I]", residual=res, tol=tol, cond=cond, max_B=mB, max_A=mA, I=Il)
+    ctx.check(bool(np.all(res <= tol)), f"{what}: A != B A[I] (columns scaled to max|column| in [0.5, 1))", residual=res, tol=tol, cond=cond,
+              max_B=mB, I=Il, exponents_of_column_maxima=mat.t)
     return Il, q
+
+
+def scaling_symmetry(ctx, what, mat, partner, I, B, fn, *args):
+    """maxvol(A D), D = diag of powers of two: L, the pivot order and U D^-1 of the LU start and every later operation are the
+    same floating-point numbers (no under/overflow inside the symmetry range), so I and B are bit-for-bit those of A."""
+    A2 = mat.partner(*partner) if partner is not None else None        # recorded cases of earlier rounds carry no partner
+    if A2 is None:
+        ctx.label("symmetry:skipped")
+        return
+    I2, B2 = ctx.lib(fn, A2.copy(), *args)
+    same_I = isinstance(I2, np.ndarray) and np.array_equal(I, I2)
+    ctx.check(same_I and isinstance(B2, np.ndarray) and np.array_equal(B, B2),
+              f"{what}: result changes when the columns of A are multiplied by powers of two",
+              I=[int(i) for i in I], I_scaled=[int(i) for i in np.asarray(I2).ravel()],
+              max_diff_B=float(np.max(np.abs(B - B2))) if getattr(B2, "shape", None) == B.shape else None,
+              exponents_of_column_maxima=mat.t, exponents_scaled=np.frexp(np.max(np.abs(A2), axis=0))[1])
+    ctx.label("symmetry:checked")
 
 
 def submatrix_stats(ctx, what, A, Il):
@@ -178,15 +292,15 @@ def maxvol_cases(draw, tier):
     spec = draw(matrix_specs(tier))
     e = draw(accuracies)
     ks = sorted(draw(st.sets(st.sampled_from([1, 2, 3, 5, 10, 100]), min_size=1, max_size=3)))
-    return {"M": spec, "e": e, "ks": ks + [K_BIG]}
+    return {"M": spec, "e": e, "ks": ks + [K_BIG], "partner": draw(scalings(spec["r"], SCALE2_PARTNER))}
 
 
 def prop_maxvol(case, ctx):
     spec, e = case["M"], float(case["e"])
-    A = build(spec)
+    mat = Mat(spec)
+    A, An, cond = mat.A, mat.An, mat.cond
     n, r = A.shape
-    cond = float(np.linalg.cond(A))
-    modified = matrix_labels(ctx, spec, A, cond)
+    modified = matrix_labels(ctx, spec, mat)
     nt = n - r >= 2 and (cond >= 1e4 or modified)
     prev = None
     first = None
@@ -195,13 +309,14 @@ def prop_maxvol(case, ctx):
         out = ctx.lib(teneva.maxvol, A.copy(), e, k)
         ctx.check(isinstance(out, tuple) and len(out) == 2, f"{what}: did not return a pair (I, B)")
         I, B = out
-        Il, _ = validate(ctx, what, A, I, B, r, r, False, cond)
-        M, logdet, condM = submatrix_stats(ctx, what, A, Il)
+        Il, _ = validate(ctx, what, mat, I, B, r, r, False)
+        scaling_symmetry(ctx, what, mat, case.get("partner"), I, B, teneva.maxvol, e, k)
+        M, logdet, condM = submatrix_stats(ctx, what, An, Il)
         if k == K_BIG:
             # 10^5 iterations cannot be reached for r <= 8 (see ASSUMPTIONS), so the loop ended through its stop test
             mx = float(np.max(np.abs(B)))
             ctx.check(mx <= e, f"{what}: iteration limit not hit but max|B| > e", max_B=mx, e=e)
-            Bref = np.linalg.solve(M.T, A.T).T
+            Bref = np.linalg.solve(M.T, An.T).T
             mr = float(np.max(np.abs(Bref)))
             tol = e * 1e-9 + 64 * EPS * r * condM * max(1.0, mr)
             ctx.check(mr <= e + tol, f"{what}: a single row swap enlarges the volume by more than e (max|A inv(A[I])| > e)",
@@ -243,27 +358,29 @@ def rect_cases(draw, tier):
         dr_max = extra + draw(st.integers(1, 4))
     return {"M": spec, "e": draw(accuracies),
             "dr_min": dr_min, "dr_max": dr_max, "e0": draw(st.sampled_from(E_SET)), "k0": draw(st.sampled_from([1, 2, 10, 100])),
-            "defaults": draw(st.integers(0, 7)) == 0}
+            "defaults": draw(st.integers(0, 7)) == 0, "partner": draw(scalings(spec["r"], SCALE2_PARTNER))}
 
 
 def prop_rect(case, ctx):
     spec, e, dr_min, dr_max = case["M"], float(case["e"]), case["dr_min"], case["dr_max"]
     e0, k0 = float(case["e0"]), case["k0"]
-    A = build(spec)
+    mat = Mat(spec)
+    A, cond = mat.A, mat.cond
     n, r = A.shape
-    cond = float(np.linalg.cond(A))
-    modified = matrix_labels(ctx, spec, A, cond)
+    modified = matrix_labels(ctx, spec, mat)
     if case["defaults"]:
         e, dr_min, dr_max, e0, k0 = 1.1, 0, None, 1.05, 10
-        out = ctx.lib(teneva.maxvol_rect, A.copy())
+        args = ()
     else:
-        out = ctx.lib(teneva.maxvol_rect, A.copy(), e, dr_min, dr_max, e0, k0)
+        args = (e, dr_min, dr_max, e0, k0)
+    out = ctx.lib(teneva.maxvol_rect, A.copy(), *args)
     what = f"maxvol_rect(e={e}, dr_min={dr_min}, dr_max={dr_max}, e0={e0}, k0={k0})"
     ctx.check(isinstance(out, tuple) and len(out) == 2, f"{what}: did not return a pair (I, B)")
     I, B = out
     lo = r + dr_min
     hi = n if dr_max is None else min(n, r + dr_max)
-    Il, q = validate(ctx, what, A, I, B, lo, hi, True, cond)
+    Il, q = validate(ctx, what, mat, I, B, lo, hi, True)
+    scaling_symmetry(ctx, what, mat, case.get("partner"), I, B, teneva.maxvol_rect, *args)
     nzero = int(np.sum(~np.any(A != 0, axis=1)))
     if q < hi:
         # stopped by the accuracy test: the start matrix of the greedy phase gives the scale of the cancellation in F
@@ -358,23 +475,28 @@ def dispatch_cases(draw, tier):
         extra = 0
     case["dr_max"] = draw(st.sampled_from([0, 0, 1, 2, extra, extra + 3, draw(st.integers(0, extra + 3))]))
     case["dr_min"] = draw(st.sampled_from([0, 0, 1, case["dr_max"], case["dr_max"] + 2, extra + 1]))
+    case["partner"] = draw(scalings(case["M"]["r"] if mode == "tall" else case["r"], SCALE2_PARTNER))
+    case["scale2"] = draw(st.sampled_from(SCALE2))
     return case
 
 
 def prop_dispatch(case, ctx):
     tau, tau0, k0, dr_min, dr_max = case["tau"], case["tau0"], case["k0"], case["dr_min"], case["dr_max"]
     if case["mode"] == "tall":
-        A = build(case["M"])
+        mat = Mat(case["M"])
+        A = mat.A
     else:
         A = np.random.default_rng(case["seed"]).normal(size=(case["n"], case["r"]))
+        A = np.ldexp(A, int(np.clip(case.get("scale2", 0), -1000, 1000)))     # n <= r never looks at the values, whatever their size
         if case["zero"]:
-            A[...] = 0.0                      # n <= r never looks at the values
+            A[...] = 0.0
     n, r = A.shape
     if case["defaults"]:
         tau, dr_min, dr_max, tau0, k0 = 1.1, 0, 0, 1.05, 100
-        out = ctx.lib(teneva._maxvol, A.copy())
+        args = ()
     else:
-        out = ctx.lib(teneva._maxvol, A.copy(), tau, dr_min, dr_max, tau0, k0)
+        args = (tau, dr_min, dr_max, tau0, k0)
+    out = ctx.lib(teneva._maxvol, A.copy(), *args)
     what = f"_maxvol(n={n}, r={r}, tau={tau}, dr_min={dr_min}, dr_max={dr_max}, tau0={tau0}, k0={k0})"
     ctx.check(isinstance(out, tuple) and len(out) == 2, f"{what}: did not return a pair (I, B)")
     I, B = out
@@ -384,20 +506,21 @@ def prop_dispatch(case, ctx):
         ctx.check(isinstance(B, np.ndarray) and B.dtype.kind == "f" and np.array_equal(B, np.eye(n)), f"{what}: B must be the n x n identity")
         ctx.nontrivial(n >= 2)
         return
-    cond = float(np.linalg.cond(A))
-    modified = matrix_labels(ctx, case["M"], A, cond)
+    cond = mat.cond
+    modified = matrix_labels(ctx, case["M"], mat)
     dmax = min(dr_max, n - r)
     dmin = min(dr_min, dmax)
     if dmax == 0:
         ctx.label("dispatch:maxvol")
-        validate(ctx, what, A, I, B, r, r, False, cond)
+        validate(ctx, what, mat, I, B, r, r, False)
         I2, B2 = ctx.lib(teneva.maxvol, A.copy(), tau0, k0)
     else:
         ctx.label("dispatch:maxvol_rect", "dr_clamped" if (dr_max > n - r or dr_min > dmax) else None)
-        validate(ctx, what, A, I, B, r + dmin, r + dmax, True, cond)
+        validate(ctx, what, mat, I, B, r + dmin, r + dmax, True)
         I2, B2 = ctx.lib(teneva.maxvol_rect, A.copy(), tau, dmin, dmax, tau0, k0)
     ctx.check(np.array_equal(I, I2) and np.array_equal(B, B2), f"{what}: result differs from the direct call of the variant it must dispatch to",
               I=[int(i) for i in I], I_direct=[int(i) for i in I2])
+    scaling_symmetry(ctx, what, mat, case.get("partner"), I, B, teneva._maxvol, *args)
     ctx.nontrivial(n - r >= 2 and (cond >= 1e4 or modified or dmin > 0 or dr_max > n - r))
 
 
